@@ -2,7 +2,7 @@
 aifeyn_<n>.txt files of generated libraries vs the formula k ln(n) + sum ln|c| computed independently."""
 import math, random, re, os
 import numpy as np
-from hcommon import io_main, quiet
+from hcommon import io_main, quiet, short_err
 import oracle, stages
 from rt_gen import ensure_lib, basis_of
 
@@ -82,7 +82,7 @@ def library_alignment(p):
         if job.get("regenerate"):
             r = stages.generate(job["runname"], job["n"], P=1, basis=job.get("basis"))
             ss, errs = stages.statuses(r)
-            err = None if all(s_ == "ok" for s_ in ss) else "second generation did not complete: %s" % (errs or ["timeout"])[0][-400:]
+            err = None if all(s_ == "ok" for s_ in ss) else "second generation did not complete: %s" % short_err((errs or ["timeout"])[0])
         else:
             err = ensure_lib(job["runname"], job["n"], job.get("basis"))
         if err:
